@@ -35,6 +35,11 @@ Theorem C12_accessor_zero : forall c e, (forall r, In r (col_rows c) -> g_z (r_o
   sem_accessor c e = zero_payload (ti_bkind (col_info c)).
 Proof. exact accessor_zero. Qed.
 
+(* the accessor the current template emits (its control skeleton: `switch e { case Owner: return Value … };
+   return *new(T)`) is sem_accessor, for every skeleton record accepted by skels_ok (see C04/C05) *)
+Theorem C12_skeleton_accessor : forall k, skels_ok k = true -> forall c e, sem_accessor_sk k c e = sem_accessor c e.
+Proof. exact skel_accessor. Qed.
+
 (* ---------------------------------------------------------------- parse by trait *)
 (* (D) Parse<Type> of the trait value on a primary definition line returns the owning value *)
 Theorem C12_parse_trait : forall d o t, wf_defn d -> traits_wf d -> gen d o = Built t -> o_notraits o = false ->
@@ -48,97 +53,125 @@ Theorem C12_parse_trait_row : forall d o t, wf_defn d -> gen d o = Built t ->
 Proof. exact parse_trait_row. Qed.
 
 (* ---------------------------------------------------------------- decoding of trait values *)
+(* All decoding theorems are stated for an ARBITRARY skeleton record k accepted by skels_ok (see C05);
+   json_attempts_sk k t jv = the Parse inputs the record's UnmarshalJSON tries on the document. *)
 (* a decoder returns the owning value of a parsable trait constant as soon as the constant is
    among the readings it tries and the document is unambiguous (no reading parses to another value) *)
 Theorem C12_decode_json : forall d o t, wf_defn d -> gen d o = Built t ->
+  forall k, skels_ok k = true ->
   forall c r jv, In c (t_cols t) -> col_parsable c = true -> In r (col_rows c) ->
   jv_null jv = false ->
-  In (cl_val (r_cell r)) (json_attempts t jv) -> unambiguous t (json_attempts t jv) (g_z (r_owner r)) ->
-  decode_json t jv = Some (g_z (r_owner r)).
-Proof. exact decode_trait_json. Qed.
+  In (cl_val (r_cell r)) (json_attempts_sk k t jv) -> unambiguous t (json_attempts_sk k t jv) (g_z (r_owner r)) ->
+  decode_json_sk k t jv = Some (g_z (r_owner r)).
+Proof. exact decode_trait_json_sk. Qed.
 Theorem C12_decode_yaml : forall d o t, wf_defn d -> gen d o = Built t ->
+  forall k, skels_ok k = true ->
   forall c r yv, In c (t_cols t) -> col_parsable c = true -> In r (col_rows c) ->
-  In (cl_val (r_cell r)) (yaml_attempts_gen true t yv) -> unambiguous t (yaml_attempts_gen true t yv) (g_z (r_owner r)) ->
-  decode_yaml t yv = Some (g_z (r_owner r)).
-Proof. exact decode_trait_yaml. Qed.
+  yv_scalar yv = true ->
+  In (cl_val (r_cell r)) (yaml_attempts_sk k t yv) -> unambiguous t (yaml_attempts_sk k t yv) (g_z (r_owner r)) ->
+  decode_yaml_sk k t yv = Some (g_z (r_owner r)).
+Proof. exact decode_trait_yaml_sk. Qed.
 Theorem C12_decode_text : forall d o t, wf_defn d -> gen d o = Built t ->
+  forall k, skels_ok k = true ->
   forall c r tv, In c (t_cols t) -> col_parsable c = true -> In r (col_rows c) ->
-  In (cl_val (r_cell r)) (text_attempts t tv) -> unambiguous t (text_attempts t tv) (g_z (r_owner r)) ->
-  decode_text t tv = Some (g_z (r_owner r)).
-Proof. exact decode_trait_text. Qed.
+  In (cl_val (r_cell r)) (text_attempts_sk k t tv) -> unambiguous t (text_attempts_sk k t tv) (g_z (r_owner r)) ->
+  decode_text_sk k t tv = Some (g_z (r_owner r)).
+Proof. exact decode_trait_text_sk. Qed.
 
 (* and the readings ARE tried, per family of the trait type: integer kinds (the int64 / uint64
    reading z when it fits the trait's type: conv_int … z = z — always the case for the value of a
    cell of that type), string kinds, self-unmarshaling types *)
-Theorem C12_decode_json_int : forall d o t, wf_defn d -> gen d o = Built t ->
+Theorem C12_decode_json_int : forall k, skels_ok k = true -> forall d o t, wf_defn d -> gen d o = Built t ->
   forall c r, In c (t_cols t) -> col_parsable c = true -> In r (col_rows c) ->
   forall jv z, jv_null jv = false -> col_kind c = KInt64 -> ti_json_own (col_info c) = false ->
   cl_val (r_cell r) = typed_int c z -> conv_int (col_bkind c) z = z -> jv_i64 jv = Some z ->
-  unambiguous t (json_attempts t jv) (g_z (r_owner r)) -> decode_json t jv = Some (g_z (r_owner r)).
+  unambiguous t (json_attempts_sk k t jv) (g_z (r_owner r)) -> decode_json_sk k t jv = Some (g_z (r_owner r)).
 Proof. exact json_int. Qed.
-Theorem C12_decode_json_uint : forall d o t, wf_defn d -> gen d o = Built t ->
+Theorem C12_decode_json_uint : forall k, skels_ok k = true -> forall d o t, wf_defn d -> gen d o = Built t ->
   forall c r, In c (t_cols t) -> col_parsable c = true -> In r (col_rows c) ->
   forall jv z, jv_null jv = false -> col_kind c = KUint64 -> ti_json_own (col_info c) = false ->
   cl_val (r_cell r) = typed_int c z -> conv_int (col_bkind c) z = z -> jv_u64 jv = Some z ->
-  unambiguous t (json_attempts t jv) (g_z (r_owner r)) -> decode_json t jv = Some (g_z (r_owner r)).
+  unambiguous t (json_attempts_sk k t jv) (g_z (r_owner r)) -> decode_json_sk k t jv = Some (g_z (r_owner r)).
 Proof. exact json_uint. Qed.
-Theorem C12_decode_json_string : forall d o t, wf_defn d -> gen d o = Built t ->
+Theorem C12_decode_json_string : forall k, skels_ok k = true -> forall d o t, wf_defn d -> gen d o = Built t ->
   forall c r, In c (t_cols t) -> col_parsable c = true -> In r (col_rows c) ->
   forall jv s, jv_null jv = false -> col_kind c = KString -> ti_json_own (col_info c) = false ->
   cl_val (r_cell r) = typed c (PStr s) -> jv_string jv = Some s ->
-  unambiguous t (json_attempts t jv) (g_z (r_owner r)) -> decode_json t jv = Some (g_z (r_owner r)).
+  unambiguous t (json_attempts_sk k t jv) (g_z (r_owner r)) -> decode_json_sk k t jv = Some (g_z (r_owner r)).
 Proof. exact json_typed_string. Qed.
-Theorem C12_decode_json_plain_string : forall d o t, wf_defn d -> gen d o = Built t ->
+Theorem C12_decode_json_plain_string : forall k, skels_ok k = true -> forall d o t, wf_defn d -> gen d o = Built t ->
   forall c r, In c (t_cols t) -> col_parsable c = true -> In r (col_rows c) ->
   forall jv s, jv_null jv = false -> cl_val (r_cell r) = DStr s -> jv_string jv = Some s ->
-  unambiguous t (json_attempts t jv) (g_z (r_owner r)) -> decode_json t jv = Some (g_z (r_owner r)).
+  unambiguous t (json_attempts_sk k t jv) (g_z (r_owner r)) -> decode_json_sk k t jv = Some (g_z (r_owner r)).
 Proof. exact json_plain_string. Qed.
-Theorem C12_decode_json_native : forall d o t, wf_defn d -> gen d o = Built t ->
+Theorem C12_decode_json_native : forall k, skels_ok k = true -> forall d o t, wf_defn d -> gen d o = Built t ->
   forall c r, In c (t_cols t) -> col_parsable c = true -> In r (col_rows c) ->
   forall jv p, jv_null jv = false -> ti_json_own (col_info c) = true ->
   cl_val (r_cell r) = typed c p -> lookup (col_type c) (jv_native jv) = Some (Some p) ->
-  unambiguous t (json_attempts t jv) (g_z (r_owner r)) -> decode_json t jv = Some (g_z (r_owner r)).
+  unambiguous t (json_attempts_sk k t jv) (g_z (r_owner r)) -> decode_json_sk k t jv = Some (g_z (r_owner r)).
 Proof. exact json_native. Qed.
-Theorem C12_decode_yaml_int : forall d o t, wf_defn d -> gen d o = Built t ->
+Theorem C12_decode_yaml_int : forall k, skels_ok k = true -> forall d o t, wf_defn d -> gen d o = Built t ->
   forall c r, In c (t_cols t) -> col_parsable c = true -> In r (col_rows c) ->
-  forall yv z, col_kind c = KInt64 -> ti_yaml_own (col_info c) = false ->
+  forall yv z, yv_scalar yv = true -> col_kind c = KInt64 -> ti_yaml_own (col_info c) = false ->
   cl_val (r_cell r) = typed_int c z -> conv_int (col_bkind c) z = z -> yv_i64 yv = Some z ->
-  unambiguous t (yaml_attempts_gen true t yv) (g_z (r_owner r)) -> decode_yaml t yv = Some (g_z (r_owner r)).
+  unambiguous t (yaml_attempts_sk k t yv) (g_z (r_owner r)) -> decode_yaml_sk k t yv = Some (g_z (r_owner r)).
 Proof. exact yaml_int. Qed.
-Theorem C12_decode_yaml_uint : forall d o t, wf_defn d -> gen d o = Built t ->
+Theorem C12_decode_yaml_uint : forall k, skels_ok k = true -> forall d o t, wf_defn d -> gen d o = Built t ->
   forall c r, In c (t_cols t) -> col_parsable c = true -> In r (col_rows c) ->
-  forall yv z, col_kind c = KUint64 -> ti_yaml_own (col_info c) = false ->
+  forall yv z, yv_scalar yv = true -> col_kind c = KUint64 -> ti_yaml_own (col_info c) = false ->
   cl_val (r_cell r) = typed_int c z -> conv_int (col_bkind c) z = z -> yv_u64 yv = Some z ->
-  unambiguous t (yaml_attempts_gen true t yv) (g_z (r_owner r)) -> decode_yaml t yv = Some (g_z (r_owner r)).
+  unambiguous t (yaml_attempts_sk k t yv) (g_z (r_owner r)) -> decode_yaml_sk k t yv = Some (g_z (r_owner r)).
 Proof. exact yaml_uint. Qed.
-Theorem C12_decode_yaml_string : forall d o t, wf_defn d -> gen d o = Built t ->
+Theorem C12_decode_yaml_string : forall k, skels_ok k = true -> forall d o t, wf_defn d -> gen d o = Built t ->
   forall c r, In c (t_cols t) -> col_parsable c = true -> In r (col_rows c) ->
-  forall yv s, col_kind c = KString -> ti_yaml_own (col_info c) = false ->
+  forall yv s, yv_scalar yv = true -> col_kind c = KString -> ti_yaml_own (col_info c) = false ->
   cl_val (r_cell r) = typed c (PStr s) -> yv_value yv = s ->
-  unambiguous t (yaml_attempts_gen true t yv) (g_z (r_owner r)) -> decode_yaml t yv = Some (g_z (r_owner r)).
+  unambiguous t (yaml_attempts_sk k t yv) (g_z (r_owner r)) -> decode_yaml_sk k t yv = Some (g_z (r_owner r)).
 Proof. exact yaml_typed_string. Qed.
-Theorem C12_decode_yaml_plain_string : forall d o t, wf_defn d -> gen d o = Built t ->
+Theorem C12_decode_yaml_plain_string : forall k, skels_ok k = true -> forall d o t, wf_defn d -> gen d o = Built t ->
   forall c r, In c (t_cols t) -> col_parsable c = true -> In r (col_rows c) ->
-  forall yv s, cl_val (r_cell r) = DStr s -> yv_value yv = s ->
-  unambiguous t (yaml_attempts_gen true t yv) (g_z (r_owner r)) -> decode_yaml t yv = Some (g_z (r_owner r)).
+  forall yv s, yv_scalar yv = true -> cl_val (r_cell r) = DStr s -> yv_value yv = s ->
+  unambiguous t (yaml_attempts_sk k t yv) (g_z (r_owner r)) -> decode_yaml_sk k t yv = Some (g_z (r_owner r)).
 Proof. exact yaml_plain_string. Qed.
-Theorem C12_decode_yaml_native : forall d o t, wf_defn d -> gen d o = Built t ->
+Theorem C12_decode_yaml_native : forall k, skels_ok k = true -> forall d o t, wf_defn d -> gen d o = Built t ->
   forall c r, In c (t_cols t) -> col_parsable c = true -> In r (col_rows c) ->
-  forall yv p, ti_yaml_own (col_info c) = true ->
+  forall yv p, yv_scalar yv = true -> ti_yaml_own (col_info c) = true ->
   cl_val (r_cell r) = typed c p -> lookup (col_type c) (yv_native yv) = Some (Some p) ->
-  unambiguous t (yaml_attempts_gen true t yv) (g_z (r_owner r)) -> decode_yaml t yv = Some (g_z (r_owner r)).
+  unambiguous t (yaml_attempts_sk k t yv) (g_z (r_owner r)) -> decode_yaml_sk k t yv = Some (g_z (r_owner r)).
 Proof. exact yaml_native. Qed.
-Theorem C12_decode_text_string : forall d o t, wf_defn d -> gen d o = Built t ->
+Theorem C12_decode_text_string : forall k, skels_ok k = true -> forall d o t, wf_defn d -> gen d o = Built t ->
   forall c r, In c (t_cols t) -> col_parsable c = true -> In r (col_rows c) ->
   forall tv s, col_kind c = KString -> ti_text_own (col_info c) = false ->
   cl_val (r_cell r) = typed c (PStr s) -> tv_text tv = s ->
-  unambiguous t (text_attempts t tv) (g_z (r_owner r)) -> decode_text t tv = Some (g_z (r_owner r)).
+  unambiguous t (text_attempts_sk k t tv) (g_z (r_owner r)) -> decode_text_sk k t tv = Some (g_z (r_owner r)).
 Proof. exact text_typed_string. Qed.
-Theorem C12_decode_text_plain_string : forall d o t, wf_defn d -> gen d o = Built t ->
+Theorem C12_decode_text_plain_string : forall k, skels_ok k = true -> forall d o t, wf_defn d -> gen d o = Built t ->
   forall c r, In c (t_cols t) -> col_parsable c = true -> In r (col_rows c) ->
   forall tv s, cl_val (r_cell r) = DStr s -> tv_text tv = s ->
-  unambiguous t (text_attempts t tv) (g_z (r_owner r)) -> decode_text t tv = Some (g_z (r_owner r)).
+  unambiguous t (text_attempts_sk k t tv) (g_z (r_owner r)) -> decode_text_sk k t tv = Some (g_z (r_owner r)).
 Proof. exact text_plain_string. Qed.
+
+(* `unambiguous` follows from the DEFINITION: no reading the decoder tries names a constant of another value
+   (case-insensitively under -caseInsensitive) or is a cell, in a column declared parsable, on a line of
+   another value (def_unambiguous: executable).  Parse<T> succeeds only on such readings (C12_parse_some) *)
+Theorem C12_parse_some : forall d o t x w, wf_defn d -> gen d o = Built t -> sem_parse t x = Some w ->
+  (exists c, In c (d_consts d) /\ c_val c = w /\
+             (x = DStr (c_name c) \/ (o_ci o = true /\ exists s, x = DStr s /\ to_lower s = to_lower (c_name c))))
+  \/ (exists k cl, In k (d_consts d) /\ c_val k = w /\ In cl (parsable_cells d o k) /\ cl_val cl = x).
+Proof. exact parse_some_inv. Qed.
+Theorem C12_unambiguous_def : forall d o t l v, wf_defn d -> gen d o = Built t ->
+  def_unambiguous d o l v = true -> unambiguous t l v.
+Proof. exact def_unambiguous_sound. Qed.
+(* non-vacuity: the JSON number 12 for a parsable int64 trait 12, the plain YAML scalar 1.1 for a parsable named
+   string trait "1.1", the text v2: unambiguous by the definition-level criterion, decoded to the owner *)
+Theorem C12_example_decodes :
+  exists t, gen ex_defn ex_opts = Built t
+    /\ def_unambiguous ex_defn ex_opts (json_attempts t ex_json12) 3 = true
+    /\ decode_json t ex_json12 = Some 3
+    /\ def_unambiguous ex_defn ex_opts (yaml_attempts t ex_yaml11) 3 = true
+    /\ decode_yaml t ex_yaml11 = Some 3
+    /\ decode_text t {| tv_text := "v2"; tv_native := [] |} = Some 9.
+Proof. exact ex_decodes. Qed.
 
 (* ---------------------------------------------------------------- the full statement is false *)
 (* "every JSON scalar holding a parsable trait value decodes to the owner" fails for bool traits:
@@ -150,17 +183,17 @@ Proof. exact full_statement_refuted. Qed.
 (* the statement on the complement of that finding: the document holds the trait constant in one of
    the ways the decoders have a family for (plain string, string kind, int64 kind, uint64 kind,
    self-unmarshaling type) *)
-Theorem C12_partial : forall d o t, wf_defn d -> gen d o = Built t ->
+Theorem C12_partial : forall k, skels_ok k = true -> forall d o t, wf_defn d -> gen d o = Built t ->
   forall c r jv, In c (t_cols t) -> col_parsable c = true -> In r (col_rows c) ->
   jv_null jv = false -> json_holds_decodable c jv (cl_val (r_cell r)) ->
-  unambiguous t (json_attempts t jv) (g_z (r_owner r)) ->
-  decode_json t jv = Some (g_z (r_owner r)).
+  unambiguous t (json_attempts_sk k t jv) (g_z (r_owner r)) ->
+  decode_json_sk k t jv = Some (g_z (r_owner r)).
 Proof. exact json_partial. Qed.
-Theorem C12_partial_yaml : forall d o t, wf_defn d -> gen d o = Built t ->
+Theorem C12_partial_yaml : forall k, skels_ok k = true -> forall d o t, wf_defn d -> gen d o = Built t ->
   forall c r yv, In c (t_cols t) -> col_parsable c = true -> In r (col_rows c) ->
-  yaml_holds_decodable c yv (cl_val (r_cell r)) ->
-  unambiguous t (yaml_attempts_gen true t yv) (g_z (r_owner r)) ->
-  decode_yaml t yv = Some (g_z (r_owner r)).
+  yv_scalar yv = true -> yaml_holds_decodable c yv (cl_val (r_cell r)) ->
+  unambiguous t (yaml_attempts_sk k t yv) (g_z (r_owner r)) ->
+  decode_yaml_sk k t yv = Some (g_z (r_owner r)).
 Proof. exact yaml_partial. Qed.
 
 (* ---------------------------------------------------------------- the pinned generator (records) *)
@@ -209,6 +242,10 @@ Proof.
   - unfold traits_wf. vm_compute. repeat constructor. simpl. intuition.
 Qed.
 
+Print Assumptions C12_skeleton_accessor.
+Print Assumptions C12_parse_some.
+Print Assumptions C12_unambiguous_def.
+Print Assumptions C12_example_decodes.
 Print Assumptions C12_accessor_names.
 Print Assumptions C12_accessor.
 Print Assumptions C12_accessor_row.
